@@ -86,22 +86,23 @@ Lemma before_head : forall ob q r, before (ob :: q) r (o_id ob) = false.
 Proof. intros. cbn. now rewrite Nat.eqb_refl. Qed.
 
 (* ------------------------------------------------------------------------------------------------ database *)
-Lemma has_row_cons : forall rs l o cols x, has_row (mkdb ((o, cols) :: rs) l) x = Nat.eqb o x || has_row (mkdb rs l) x.
-Proof. reflexivity. Qed.
+Lemma has_row_cons : forall d o cols x, has_row (mkdb ((o, cols) :: rows d) (lnk d)) x = Nat.eqb o x || has_row d x.
+Proof. intros [rs l]; reflexivity. Qed.
 
 Lemma has_row_map : forall rs l f x, (forall r, fst (f r) = fst r) -> has_row (mkdb (map f rs) l) x = has_row (mkdb rs l) x.
 Proof.
   intros rs l f x Hf. unfold has_row; cbn. induction rs as [|r rs IH]; cbn; [reflexivity|]. now rewrite Hf, IH.
 Qed.
 
-Lemma has_row_filter : forall rs l o x, has_row (mkdb (filter (fun r => negb (Nat.eqb (fst r) o)) rs) l) x = negb (Nat.eqb x o) && has_row (mkdb rs l) x.
+Lemma has_row_filter : forall d l' o x,
+  has_row (mkdb (filter (fun r => negb (Nat.eqb (fst r) o)) (rows d)) l') x = negb (Nat.eqb x o) && has_row d x.
 Proof.
-  intros rs l o x. unfold has_row; cbn. induction rs as [|r rs IH]; cbn; [now rewrite andb_false_r|].
-  destruct (Nat.eqb (fst r) o) eqn:E; cbn; rewrite IH.
-  - apply Nat.eqb_eq in E. destruct (Nat.eqb (fst r) x) eqn:Ex; cbn; [|reflexivity].
-    apply Nat.eqb_eq in Ex. subst. rewrite Nat.eqb_refl. reflexivity.
-  - destruct (Nat.eqb (fst r) x) eqn:Ex; cbn; [|reflexivity].
-    apply Nat.eqb_eq in Ex. subst. rewrite E. reflexivity.
+  intros d l' o x. apply eq_true_iff_eq. unfold has_row; cbn [rows].
+  rewrite andb_true_iff, negb_true_iff, Nat.eqb_neq, !existsb_exists. split.
+  - intros [r [Hr Hx]]. apply filter_In in Hr as [Hr Hf]. apply negb_true_iff, Nat.eqb_neq in Hf. apply Nat.eqb_eq in Hx.
+    split; [intro E; apply Hf; rewrite Hx; exact E|]. exists r; split; [assumption | now apply Nat.eqb_eq].
+  - intros [Hn [r [Hr Hx]]]. exists r. split; [|assumption]. apply filter_In; split; [assumption|].
+    apply negb_true_iff, Nat.eqb_neq. apply Nat.eqb_eq in Hx. intro E; apply Hn; rewrite <- Hx; exact E.
 Qed.
 
 Lemma points_to_targets : forall d cols, points_to d cols = mem d (targets_of cols).
@@ -113,14 +114,689 @@ Qed.
 Lemma points_to_set_cols : forall old new d,
   points_to d new = false -> (points_to d old = false \/ overrides old new d = true) -> points_to d (set_cols old new) = false.
 Proof.
-  intros old new d Hn Ho. unfold set_cols, points_to in *. rewrite existsb_app, Hn. cbn.
-  destruct Ho as [Ho|Ho].
-  - destruct (existsb _ (filter _ old)) eqn:E; [|reflexivity].
-    apply existsb_exists in E as [c [Hc Hc2]]. apply filter_In in Hc as [Hc _].
-    assert (existsb (fun c => match snd c with Some t => Nat.eqb t d | None => false end) old = true) by (apply existsb_exists; eauto). congruence.
-  - unfold overrides in Ho. apply andb_true_iff in Ho as [Ho _]. rewrite forallb_forall in Ho.
-    destruct (existsb _ (filter _ old)) eqn:E; [|reflexivity].
-    apply existsb_exists in E as [c [Hc Hc2]]. apply filter_In in Hc as [Hc Hf].
-    specialize (Ho c Hc). destruct (snd c) as [t|]; [|discriminate]. rewrite Hc2 in Ho.
-    apply negb_true_iff in Hf. congruence.
+  intros old new d Hn Ho. destruct (points_to d (set_cols old new)) eqn:E; [|reflexivity]. exfalso.
+  unfold points_to in E. apply existsb_exists in E as [c [Hc Hc2]]. unfold set_cols in Hc. apply in_app_or in Hc as [Hc|Hc].
+  - assert (points_to d new = true) by (apply existsb_exists; eauto). congruence.
+  - apply filter_In in Hc as [Hc Hf]. destruct Ho as [Ho|Ho].
+    + assert (points_to d old = true) by (apply existsb_exists; eauto). congruence.
+    + unfold overrides in Ho. apply andb_true_iff in Ho as [Ho _]. rewrite forallb_forall in Ho.
+      specialize (Ho c Hc). destruct (snd c) as [t|]; [|discriminate]. rewrite Hc2 in Ho.
+      apply negb_true_iff in Hf. exact (eq_true_false_abs _ Ho Hf).
+Qed.
+
+(* ------------------------------------------------------------------------------------------------ the invariant *)
+Definition not_deleted (q : list obj) (t : oid) : Prop := pending_st q t <> Some Deleted.
+Definition ok_target (d : db) (q : list obj) (t : oid) : Prop := (has_row d t = true \/ is_created q t = true) /\ not_deleted q t.
+
+(* why row r does not stand in the way of deleting dd: it is dd's own row, or does not point to it, or it is dealt with earlier in
+   the queue (deleted itself, or updated so that every column that pointed to dd gets another value) *)
+Definition justified (q : list obj) (r : oid * list (nat * option oid)) (dd : oid) : Prop :=
+  fst r = dd \/ points_to dd (snd r) = false \/
+  (before q (fst r) dd = true /\ exists rb, lookup q (fst r) = Some rb /\
+     (o_st rb = Deleted \/ (o_st rb = Modified /\ overrides (snd r) (o_cols rb) dd = true))).
+
+Definition P_obj (d : db) (q : list obj) (ob : obj) : Prop :=
+  match o_st ob with
+  | Created => has_row d (o_id ob) = false /\ forall t, In t (targets ob) -> ok_target d q t /\ t <> o_id ob
+  | Modified => has_row d (o_id ob) = true /\ forall t, In t (targets ob) -> ok_target d q t
+  | Deleted => has_row d (o_id ob) = true /\ forall r, In r (rows d) -> justified q r (o_id ob)
+  end.
+
+Definition Inv (d : db) (q : list obj) : Prop := nodup_ids q = true /\ forall ob, In ob q -> P_obj d q ob.
+
+Lemma not_deleted_drop : forall q o t, not_deleted q t -> not_deleted (drop q o) t.
+Proof.
+  intros q o t H. unfold not_deleted in *. destruct (Nat.eq_dec t o) as [->|Hn].
+  - unfold pending_st. rewrite lookup_drop_same. discriminate.
+  - now rewrite pending_st_drop.
+Qed.
+
+Lemma mem_in : forall o l, mem o l = true <-> In o l.
+Proof.
+  intros o l. unfold mem. rewrite existsb_exists. split.
+  - intros [x [H1 H2]]. apply Nat.eqb_eq in H2. now subst.
+  - intros H. exists o. split; [assumption | apply Nat.eqb_refl].
+Qed.
+
+Lemma status_of_lookup : forall q o ob, nodup_ids q = true -> In ob q -> o_id ob = o -> pending_st q o = Some (o_st ob).
+Proof. intros q o ob N H E. unfold pending_st. subst o. now rewrite (nodup_lookup_unique q ob N H). Qed.
+
+(* a justification survives the removal of an object that is neither the row's owner (as Deleted / Modified) nor dd *)
+Lemma justified_drop : forall q o r dd ob, nodup_ids q = true -> lookup q o = Some ob -> o_st ob = Created -> o <> dd ->
+  justified q r dd -> justified (drop q o) r dd.
+Proof.
+  intros q o r dd ob N Ho Hst Hd [H|[H|[Hb [rb [Hl Hs]]]]]; [now left | right; now left |].
+  right; right.
+  assert (Hr : o <> fst r).
+  { intro E. rewrite <- E in Hl. rewrite Ho in Hl. injection Hl as <-. destruct Hs as [Hs|[Hs _]]; congruence. }
+  split; [now rewrite before_drop|]. exists rb. split; [now rewrite lookup_drop_other by congruence | assumption].
+Qed.
+
+Ltac ne := solve [ assumption | congruence
+                 | let X := fresh in intro X; match goal with H : _ <> _ |- _ => apply H; first [exact X | symmetry; exact X] end ].
+
+(* ------------------------------------------------------------------------------------------------ the three kinds of statement *)
+Lemma step_insert : forall d q o ob,
+  Inv d q -> lookup q o = Some ob -> o_st ob = Created -> (forall t, In t (targets ob) -> has_row d t = true) ->
+  exists d', exec d (SInsert o (o_cols ob)) = Some d' /\ Inv d' (drop q o) /\
+             (forall x, has_row d' x = Nat.eqb o x || has_row d x).
+Proof.
+  intros d q o ob [N I] Ho Hst Ht. unfold oid in *. destruct (lookup_in _ _ _ Ho) as [Hin Hid]. subst o.
+  pose proof (I ob Hin) as P. unfold P_obj in P. rewrite Hst in P. destruct P as [Hnr Htg].
+  exists (mkdb ((o_id ob, o_cols ob) :: rows d) (lnk d)). split; [|split].
+  - cbn [exec]. rewrite Hnr.
+    assert (F : forallb (fun t => has_row d t || Nat.eqb t (o_id ob)) (targets_of (o_cols ob)) = true).
+    { apply forallb_forall. intros t Hi. cbn beta. rewrite (Ht t Hi). reflexivity. }
+    now rewrite F.
+  - split; [now apply nodup_ids_drop|]. intros ob' Hin'. apply in_drop in Hin' as [Hin' Hne].
+    pose proof (I ob' Hin') as P'. unfold P_obj in *.
+    assert (Htarget : forall t, ok_target d q t -> ok_target (mkdb ((o_id ob, o_cols ob) :: rows d) (lnk d)) (drop q (o_id ob)) t).
+    { intros t [[Hr|Hc] Hnd]; (split; [|now apply not_deleted_drop]).
+      - left. rewrite has_row_cons, Hr. apply orb_true_r.
+      - destruct (Nat.eq_dec t (o_id ob)) as [->|Hn].
+        + left. rewrite has_row_cons, Nat.eqb_refl. reflexivity.
+        + right. now rewrite is_created_drop. }
+    destruct (o_st ob') eqn:Est'.
+    + destruct P' as [Hnr' Htg']. split.
+      * rewrite has_row_cons, Hnr'. destruct (Nat.eqb (o_id ob) (o_id ob')) eqn:E; [apply Nat.eqb_eq in E; congruence | reflexivity].
+      * intros t Hi. destruct (Htg' t Hi) as [A B]. split; [now apply Htarget | assumption].
+    + destruct P' as [Hr' Htg']. split; [rewrite has_row_cons, Hr'; apply orb_true_r|].
+      intros t Hi. now apply Htarget, Htg'.
+    + destruct P' as [Hr' Hj]. split; [rewrite has_row_cons, Hr'; apply orb_true_r|].
+      intros r [<-|Hr].
+      * (* the new row does not point to an object that is pending deletion *)
+        right; left. cbn [snd]. rewrite points_to_targets.
+        destruct (mem (o_id ob') (targets_of (o_cols ob))) eqn:Em; [|reflexivity]. exfalso.
+        apply mem_in in Em. destruct (Htg _ Em) as [[_ Hnd] _]. apply Hnd.
+        rewrite (status_of_lookup q (o_id ob') ob' N Hin' eq_refl). now rewrite Est'.
+      * apply (justified_drop q (o_id ob) r (o_id ob') ob N Ho Hst); [congruence | now apply Hj].
+  - intros x. reflexivity.
+Qed.
+
+Lemma step_update : forall d q o ob,
+  Inv d q -> lookup q o = Some ob -> o_st ob = Modified -> (forall t, In t (targets ob) -> has_row d t = true) ->
+  exists d', exec d (SUpdate o (o_cols ob)) = Some d' /\ Inv d' (drop q o) /\ (forall x, has_row d' x = has_row d x).
+Proof.
+  intros d q o ob [N I] Ho Hst Ht. unfold oid in *. destruct (lookup_in _ _ _ Ho) as [Hin Hid]. subst o.
+  pose proof (I ob Hin) as P. unfold P_obj in P. rewrite Hst in P. destruct P as [Hr Htg].
+  set (d' := mkdb (map (fun r => if Nat.eqb (fst r) (o_id ob) then (o_id ob, set_cols (snd r) (o_cols ob)) else r) (rows d)) (lnk d)).
+  assert (Hrows : forall x, has_row d' x = has_row d x).
+  { intros x. unfold d'. destruct d as [rs l]. apply has_row_map. intros r. cbn.
+    match goal with |- context [if ?b then _ else _] => destruct b eqn:E end; [apply Nat.eqb_eq in E; cbn; symmetry; exact E | reflexivity]. }
+  exists d'. split; [|split; [|exact Hrows]].
+  - cbn [exec]. rewrite Hr. cbn [negb].
+    assert (F : forallb (has_row d) (targets_of (o_cols ob)) = true) by (apply forallb_forall; intros t Hi; now apply Ht).
+    now rewrite F.
+  - split; [now apply nodup_ids_drop|]. intros ob' Hin'. apply in_drop in Hin' as [Hin' Hne].
+    pose proof (I ob' Hin') as P'. unfold P_obj in *.
+    assert (Htarget : forall t, ok_target d q t -> ok_target d' (drop q (o_id ob)) t).
+    { intros t [[Hrt|Hc] Hnd]; (split; [|now apply not_deleted_drop]).
+      - left. now rewrite Hrows.
+      - right. rewrite is_created_drop; [assumption|]. intro E. subst t. unfold is_created in Hc. rewrite Ho, Hst in Hc. discriminate. }
+    destruct (o_st ob') eqn:Est'.
+    + destruct P' as [Hnr' Htg']. split; [now rewrite Hrows|].
+      intros t Hi. destruct (Htg' t Hi) as [A B]. split; [now apply Htarget | assumption].
+    + destruct P' as [Hr' Htg']. split; [now rewrite Hrows|]. intros t Hi. now apply Htarget, Htg'.
+    + destruct P' as [Hr' Hj]. split; [now rewrite Hrows|].
+      intros r Hrin. unfold d' in Hrin. cbn [rows] in Hrin. apply in_map_iff in Hrin as [r0 [Er Hr0]].
+      specialize (Hj r0 Hr0).
+      destruct (Nat.eqb (fst r0) (o_id ob)) eqn:E.
+      * (* the updated row: after the update it no longer points to dd *)
+        apply Nat.eqb_eq in E. subst r. cbn [fst snd].
+        right; left. apply points_to_set_cols.
+        -- rewrite points_to_targets. destruct (mem (o_id ob') (targets_of (o_cols ob))) eqn:Em; [|reflexivity]. exfalso.
+           apply mem_in in Em. destruct (Htg _ Em) as [_ Hnd]. apply Hnd.
+           rewrite (status_of_lookup q (o_id ob') ob' N Hin' eq_refl). now rewrite Est'.
+        -- destruct Hj as [Hj|[Hj|[Hb [rb [Hl Hs]]]]].
+           ++ exfalso. apply Hne. transitivity (fst r0); [symmetry; exact Hj | exact E].
+           ++ now left.
+           ++ assert (Hl' : lookup q (o_id ob) = Some rb) by (rewrite <- E; exact Hl).
+              rewrite Ho in Hl'. injection Hl' as <-. destruct Hs as [Hs|[_ Hs]]; [congruence | now right].
+      * subst r. apply Nat.eqb_neq in E.
+        destruct Hj as [Hj|[Hj|[Hb [rb [Hl Hs]]]]]; [now left | right; now left |].
+        right; right. split.
+        -- rewrite before_drop; [assumption | ne | ne].
+        -- exists rb. split; [rewrite lookup_drop_other; [assumption | ne] | assumption].
+Qed.
+
+Lemma step_delete : forall d ob q,
+  Inv d (ob :: q) -> o_st ob = Deleted ->
+  exists d', exec d (SDelete (o_id ob)) = Some d' /\ Inv d' (drop (ob :: q) (o_id ob)) /\
+             (forall x, has_row d' x = negb (Nat.eqb x (o_id ob)) && has_row d x).
+Proof.
+  intros d ob q [N I] Hst. unfold oid in *.
+  pose proof (I ob (or_introl eq_refl)) as P. unfold P_obj in P. rewrite Hst in P. destruct P as [Hr Hj].
+  assert (Hnoref : referenced d (o_id ob) = false).
+  { unfold referenced. match goal with |- ?X = false => destruct X eqn:E; [|reflexivity] end. exfalso.
+    apply existsb_exists in E as [r [Hrin Hc]]. apply andb_true_iff in Hc as [Hc1 Hc2]. apply negb_true_iff, Nat.eqb_neq in Hc1.
+    destruct (Hj r Hrin) as [H|[H|[Hb _]]]; [exact (Hc1 H) | exact (eq_true_false_abs _ Hc2 H) |]. rewrite before_head in Hb. discriminate. }
+  set (d' := mkdb (filter (fun r => negb (Nat.eqb (fst r) (o_id ob))) (rows d))
+                  (filter (fun l => negb (Nat.eqb (fst l) (o_id ob) || Nat.eqb (snd l) (o_id ob))) (lnk d))).
+  assert (Hrows : forall x, has_row d' x = negb (Nat.eqb x (o_id ob)) && has_row d x).
+  { intros x. unfold d'. apply has_row_filter. }
+  exists d'. split; [|split; [|exact Hrows]].
+  - cbn [exec]. now rewrite Hnoref.
+  - split; [now apply nodup_ids_drop|]. intros ob' Hin'. apply in_drop in Hin' as [Hin' Hne].
+    pose proof (I ob' Hin') as P'. unfold P_obj in *.
+    assert (Hlk : lookup (ob :: q) (o_id ob) = Some ob) by now apply nodup_lookup_head.
+    assert (Htarget : forall t, ok_target d (ob :: q) t -> ok_target d' (drop (ob :: q) (o_id ob)) t).
+    { intros t [Hor Hnd]. assert (Hto : t <> o_id ob).
+      { intro E. subst t. apply Hnd. unfold pending_st. rewrite Hlk. cbn. now rewrite Hst. }
+      split; [|now apply not_deleted_drop]. destruct Hor as [Hrt|Hc].
+      - left. rewrite Hrows, Hrt. apply Nat.eqb_neq in Hto. now rewrite Hto.
+      - right. now rewrite is_created_drop. }
+    destruct (o_st ob') eqn:Est'.
+    + destruct P' as [Hnr' Htg']. split; [rewrite Hrows, Hnr'; apply andb_false_r|].
+      intros t Hi. destruct (Htg' t Hi) as [A B]. split; [now apply Htarget | assumption].
+    + destruct P' as [Hr' Htg']. split.
+      * rewrite Hrows, Hr'. apply Nat.eqb_neq in Hne. now rewrite Hne.
+      * intros t Hi. now apply Htarget, Htg'.
+    + destruct P' as [Hr' Hj']. split.
+      * rewrite Hrows, Hr'. apply Nat.eqb_neq in Hne. now rewrite Hne.
+      * intros r Hrin. unfold d' in Hrin. cbn [rows] in Hrin. apply filter_In in Hrin as [Hrin Hf].
+        apply negb_true_iff, Nat.eqb_neq in Hf.
+        destruct (Hj' r Hrin) as [H|[H|[Hb [rb [Hl Hs]]]]]; [now left | right; now left |].
+        right; right. split.
+        -- rewrite before_drop; [assumption | ne | ne].
+        -- exists rb. split; [rewrite lookup_drop_other; [assumption | ne] | assumption].
+Qed.
+
+(* ------------------------------------------------------------------------------------------------ sequences of statements *)
+Lemma exec_all_app : forall ss1 ss2 d, exec_all d (ss1 ++ ss2) = match exec_all d ss1 with Some d' => exec_all d' ss2 | None => None end.
+Proof. induction ss1 as [|s ss1 IH]; intros ss2 d; cbn; [reflexivity|]. destruct (exec d s); [apply IH | reflexivity]. Qed.
+
+Lemma exec_all_snoc : forall ss s d d1 d2, exec_all d ss = Some d1 -> exec d1 s = Some d2 -> exec_all d (ss ++ [s]) = Some d2.
+Proof. intros. rewrite exec_all_app, H. cbn. now rewrite H0. Qed.
+
+Definition subq (q' q : list obj) : Prop := forall x, lookup q' x = lookup q x \/ lookup q' x = None.
+
+Lemma subq_refl : forall q, subq q q. Proof. intros q x; now left. Qed.
+Lemma subq_trans : forall a b c, subq a b -> subq b c -> subq a c.
+Proof. intros a b c H1 H2 x. destruct (H1 x) as [E|E]; [rewrite E; apply H2 | now right]. Qed.
+Lemma subq_drop : forall q o, subq (drop q o) q.
+Proof. intros q o x. destruct (Nat.eq_dec x o) as [->|Hn]; [right; apply lookup_drop_same | left; now apply lookup_drop_other]. Qed.
+
+Lemma subq_created : forall q' q t, subq q' q -> is_created q' t = true -> is_created q t = true.
+Proof. intros q' q t H Hc. unfold is_created in *. destruct (H t) as [E|E]; rewrite E in Hc; [assumption | discriminate]. Qed.
+
+Lemma subq_not_deleted : forall q' q t, subq q' q -> not_deleted q t -> not_deleted q' t.
+Proof. intros q' q t H Hn. unfold not_deleted, pending_st in *. destruct (H t) as [E|E]; rewrite E; [assumption | discriminate]. Qed.
+
+Lemma filter_length_le : forall A (f : A -> bool) l, length (filter f l) <= length l.
+Proof. intros A f l; induction l as [|x l IH]; cbn; [lia|]. destruct (f x); cbn; lia. Qed.
+
+Lemma length_drop : forall q o ob, lookup q o = Some ob -> length (drop q o) < length q.
+Proof.
+  induction q as [|x q IH]; intros o ob H; [discriminate|]. unfold lookup in H. cbn in H. unfold drop. cbn [filter].
+  destruct (Nat.eqb (o_id x) o) eqn:E; cbn [negb length].
+  - pose proof (filter_length_le _ (fun ob0 => negb (Nat.eqb (o_id ob0) o)) q). lia.
+  - specialize (IH o ob H). unfold drop in IH. lia.
+Qed.
+
+Lemma subq_length : forall q o, length (drop q o) <= length q.
+Proof. intros. unfold drop. apply filter_length_le. Qed.
+
+Section Order.
+Variable rank : oid -> nat.
+Variable d0 : db.
+
+Definition ranked_l (q : list obj) : Prop :=
+  forall o ob t, lookup q o = Some ob -> o_st ob = Created -> In t (targets ob) -> is_created q t = true -> rank t < rank o.
+
+Lemma ranked_l_sub : forall q' q, subq q' q -> ranked_l q -> ranked_l q'.
+Proof.
+  intros q' q S R o ob t Hl Hst Ht Hc. destruct (S o) as [E|E]; [|congruence].
+  rewrite E in Hl. eapply R; try eassumption. eapply subq_created; eassumption.
+Qed.
+
+(* what is known about dependent_objects when object o is about to be saved: whoever is still pending in it is an ancestor *)
+Definition deps_ok (q : list obj) (deps : list oid) (o : oid) (ob : obj) : Prop :=
+  forall x, In x deps -> lookup q x = None \/
+    (exists xb, lookup q x = Some xb /\ (o_st xb = Modified \/ (o_st xb = Created /\ o_st ob = Created /\ rank o < rank x))).
+
+Record post (o : oid) (ob : obj) (q : list obj) (deps : list oid) (d : db) (q' : list obj) (out' : list stmt) (deps' : list oid) (d' : db) : Prop := mkpost {
+  po_exec : exec_all d0 out' = Some d';
+  po_inv : Inv d' q';
+  po_sub : subq q' q;
+  po_gone : lookup q' o = None;
+  po_removed : forall x xb, lookup q x = Some xb -> lookup q' x = None -> x = o \/ (o_st xb = Created /\ (o_st ob = Created -> rank x < rank o));
+  po_deps : exists extra, deps' = deps ++ extra /\ forall x, In x extra -> lookup q' x = None;
+  po_rows1 : forall x, has_row d x = true -> not_deleted q x -> has_row d' x = true;
+  po_rows2 : forall x, is_created q x = true -> lookup q' x = None -> has_row d' x = true;
+  po_len : length q' < length q
+}.
+
+Definition save_spec (f : nat) : Prop :=
+  forall o q out deps d ob,
+    0 < f -> exec_all d0 out = Some d -> Inv d q -> ranked_l q -> lookup q o = Some ob ->
+    (o_st ob = Created -> rank o < f /\ deps_ok q deps o ob) ->
+    (o_st ob = Modified -> deps = [] /\ forall t, In t (targets ob) -> is_created q t = true -> S (rank t) < f) ->
+    (o_st ob = Deleted -> exists q0, q = ob :: q0) ->
+    exists q' out' deps' d', save f o q out deps = ROk q' out' deps' /\ post o ob q deps d q' out' deps' d'.
+
+Lemma targets_ok_of_inv : forall d q o ob, Inv d q -> lookup q o = Some ob -> o_st ob <> Deleted ->
+  forall t, In t (targets ob) -> ok_target d q t /\ (o_st ob = Created -> t <> o).
+Proof.
+  intros d q o ob [N I] Hl Hst t Ht. destruct (lookup_in _ _ _ Hl) as [Hin Hid]. subst o.
+  pose proof (I ob Hin) as P. unfold P_obj in P. destruct (o_st ob); [| |congruence].
+  - destruct P as [_ P]. destruct (P t Ht). split; auto.
+  - destruct P as [_ P]. split; [now apply P | discriminate].
+Qed.
+
+(* the loop over the referenced objects *)
+Lemma principals_ok : forall f, save_spec f ->
+  forall o ob, o_st ob <> Deleted ->
+  forall ts q1 out1 deps1 d1,
+    exec_all d0 out1 = Some d1 -> Inv d1 q1 -> ranked_l q1 -> lookup q1 o = Some ob ->
+    incl ts (targets ob) ->
+    (forall t, In t ts -> is_created q1 t = true -> rank t < f /\ (o_st ob = Created -> rank t < rank o)) ->
+    (forall x, In x deps1 -> lookup q1 x = None \/ x = o \/
+               (exists xb, lookup q1 x = Some xb /\ (o_st xb = Modified \/ (o_st xb = Created /\ o_st ob = Created /\ rank o < rank x)))) ->
+    exists q2 out2 deps2 d2,
+      principals (save f) ts q1 out1 deps1 = ROk q2 out2 deps2 /\
+      exec_all d0 out2 = Some d2 /\ Inv d2 q2 /\ subq q2 q1 /\ lookup q2 o = Some ob /\
+      (forall t, In t ts -> has_row d2 t = true) /\
+      (forall x xb, lookup q1 x = Some xb -> lookup q2 x = None -> o_st xb = Created /\ (o_st ob = Created -> rank x < rank o)) /\
+      (exists extra, deps2 = deps1 ++ extra /\ forall x, In x extra -> lookup q2 x = None) /\
+      (forall x, has_row d1 x = true -> not_deleted q1 x -> has_row d2 x = true) /\
+      (forall x, is_created q1 x = true -> lookup q2 x = None -> has_row d2 x = true) /\
+      length q2 <= length q1.
+Proof.
+  intros f IHf o ob Hnd ts. induction ts as [|t ts IH]; intros q1 out1 deps1 d1 Hex HI HR Hl Hincl Hrk Hdeps.
+  - exists q1, out1, deps1, d1. cbn [principals].
+    split; [reflexivity|]. split; [assumption|]. split; [assumption|]. split; [apply subq_refl|]. split; [assumption|].
+    split; [intros t []|].
+    split; [intros x xb H1 H2; congruence|].
+    split; [exists []; rewrite app_nil_r; split; [reflexivity | intros x []]|].
+    split; [intros x Hx _; exact Hx|].
+    split; [|lia].
+    intros x Hc Hn. unfold is_created in Hc. now rewrite Hn in Hc.
+  - cbn [principals].
+    assert (Htin : In t (targets ob)) by (apply Hincl; now left).
+    destruct (targets_ok_of_inv _ _ _ _ HI Hl Hnd t Htin) as [[Hor Hndt] Hto].
+    destruct (is_created q1 t) eqn:Ec.
+    + (* still 'created': save it first *)
+      destruct (Hrk t (or_introl eq_refl) Ec) as [Hrf Hro].
+      unfold is_created in Ec. destruct (lookup q1 t) as [tb|] eqn:Elt; [|discriminate].
+      destruct (o_st tb) eqn:Estb; try discriminate.
+      assert (Hdt : deps_ok q1 deps1 t tb).
+      { intros x Hx. destruct (Hdeps x Hx) as [H|[->|[xb [H1 [H2|[H2 [H3 H4]]]]]]]; [now left | | |].
+        - right. exists ob. split; [assumption|]. destruct (o_st ob) eqn:Eob; [right | now left | congruence].
+          repeat split; auto.
+        - right. exists xb. split; [assumption | now left].
+        - right. exists xb. split; [assumption|]. right. repeat split; auto. specialize (Hro H3). lia. }
+      destruct (IHf t q1 out1 deps1 d1 tb ltac:(lia) Hex HI HR Elt) as [q' [out' [deps' [d' [Hsv P]]]]].
+      { intros _. split; assumption. }
+      { intros E. congruence. }
+      { intros E. congruence. }
+      rewrite Hsv. destruct P.
+      assert (Hlo : lookup q' o = Some ob).
+      { destruct (po_sub0 o) as [E|E]; [now rewrite E|]. exfalso.
+        destruct (po_removed0 o ob Hl E) as [E2|[E2 E3]].
+        - subst t. rewrite Hl in Elt. injection Elt as <-. destruct (o_st ob) eqn:Eob; try congruence. specialize (Hto eq_refl). congruence.
+        - specialize (Hro E2). specialize (E3 Estb). lia. }
+      destruct (IH q' out' deps' d' po_exec0 po_inv0 (ranked_l_sub _ _ po_sub0 HR) Hlo) as [q2 [out2 [deps2 [d2 [Hp [A1 [A2 [A3 [A4 [A5 [A6 [A7 [A8 [A9 A10]]]]]]]]]]]]]].
+      { intros z Hz. apply Hincl. now right. }
+      { intros z Hz Hcz. apply Hrk; [now right | eapply subq_created; eassumption]. }
+      { destruct po_deps0 as [extra [-> Hextra]]. intros x Hx. apply in_app_or in Hx as [Hx|Hx]; [|left; now apply Hextra].
+        destruct (Hdeps x Hx) as [H|[->|[xb [H1 H2]]]].
+        - left. destruct (po_sub0 x) as [E|E]; congruence.
+        - right; now left.
+        - destruct (po_sub0 x) as [E|E]; [|now left]. right; right. exists xb. rewrite E. auto. }
+      exists q2, out2, deps2, d2. split; [exact Hp|]. split; [exact A1|]. split; [exact A2|].
+      split; [eapply subq_trans; eassumption|]. split; [exact A4|].
+      split.
+      { intros z [<-|Hz]; [|now apply A5].
+        apply A8; [apply po_rows4; [unfold is_created; now rewrite Elt, Estb | exact po_gone0]|].
+        unfold not_deleted, pending_st. rewrite po_gone0. discriminate. }
+      split.
+      { intros x xb H1 H2. destruct (po_sub0 x) as [E|E].
+        - rewrite H1 in E. exact (A6 x xb E H2).
+        - destruct (po_removed0 x xb H1 E) as [->|[E2 E3]].
+          + rewrite Elt in H1. injection H1 as <-. split; [assumption | intros; now apply Hro].
+          + split; [assumption|]. intros Eo. specialize (Hro Eo). specialize (E3 Estb). lia. }
+      split.
+      { destruct po_deps0 as [e1 [-> He1]]. destruct A7 as [e2 [-> He2]]. exists (e1 ++ e2). rewrite app_assoc. split; [reflexivity|].
+        intros x Hx. apply in_app_or in Hx as [Hx|Hx]; [|now apply He2].
+        destruct (A3 x) as [E|E]; [rewrite E; now apply He1 | assumption]. }
+      split.
+      { intros x Hx Hn. apply A8; [now apply po_rows3 | eapply subq_not_deleted; eassumption]. }
+      split.
+      { intros x Hc Hn. destruct (po_sub0 x) as [E|E].
+        - apply A9; [|assumption]. unfold is_created in *. now rewrite E.
+        - apply A8; [now apply po_rows4|]. unfold not_deleted, pending_st. rewrite E. discriminate. }
+      lia.
+    + (* not (or no longer) 'created': its row exists *)
+      assert (Hrow : has_row d1 t = true) by (destruct Hor as [H|H]; [assumption | congruence]).
+      destruct (IH q1 out1 deps1 d1 Hex HI HR Hl) as [q2 [out2 [deps2 [d2 [Hp [A1 [A2 [A3 [A4 [A5 [A6 [A7 [A8 [A9 A10]]]]]]]]]]]]]].
+      { intros z Hz. apply Hincl. now right. }
+      { intros z Hz Hcz. apply Hrk; [now right | assumption]. }
+      { exact Hdeps. }
+      exists q2, out2, deps2, d2. repeat (split; [assumption|]).
+      split; [|repeat (split; try assumption)].
+      intros z [<-|Hz]; [now apply A8 | now apply A5].
+Qed.
+
+Lemma deps_ok_notin : forall q deps o ob, lookup q o = Some ob -> o_st ob = Created -> deps_ok q deps o ob -> mem o deps = false.
+Proof.
+  intros q deps o ob Hl Hst Hd. destruct (mem o deps) eqn:E; [|reflexivity]. exfalso.
+  apply mem_in in E. destruct (Hd o E) as [H|[xb [H1 [H2|[_ [_ H3]]]]]]; [congruence | | lia].
+  rewrite Hl in H1. injection H1 as <-. congruence.
+Qed.
+
+Lemma save_ok : forall f, save_spec f.
+Proof.
+  induction f as [|f IHf]; intros o q out deps d ob Hf Hex HI HR Hl HC HM HD; [lia|].
+  cbn [save]. rewrite Hl. destruct (lookup_in _ _ _ Hl) as [Hin Hid].
+  destruct (o_st ob) eqn:Est.
+  - (* created: principals first, then INSERT *)
+    destruct (HC eq_refl) as [Hrk Hd]. rewrite (deps_ok_notin q deps o ob Hl Est Hd).
+    destruct (principals_ok f IHf o ob ltac:(congruence) (targets ob) q out (deps ++ [o]) d Hex HI HR Hl (incl_refl _))
+      as [q2 [out2 [deps2 [d2 [Hp [A1 [A2 [A3 [A4 [A5 [A6 [A7 [A8 [A9 A10]]]]]]]]]]]]]].
+    { intros t Ht Hc. assert (rank t < rank o) by (eapply HR; eassumption). split; [lia | auto]. }
+    { intros x Hx. apply in_app_or in Hx as [Hx|[<-|[]]]; [|right; now left].
+      destruct (Hd x Hx) as [H|[xb [H1 H2]]]; [now left|]. right; right. exists xb. split; [assumption|].
+      destruct H2 as [H2|[H2 [H3 H4]]]; [now left | right; auto]. }
+    rewrite Hp.
+    destruct (step_insert d2 q2 o ob A2 A4 Est A5) as [d3 [Hex3 [HI3 Hrows3]]].
+    exists (drop q2 o), (out2 ++ [SInsert o (o_cols ob)]), deps2, d3. split; [reflexivity|].
+    constructor.
+    + eapply exec_all_snoc; eassumption.
+    + assumption.
+    + eapply subq_trans; [apply subq_drop | assumption].
+    + apply lookup_drop_same.
+    + intros x xb H1 H2. destruct (Nat.eq_dec x o) as [->|Hn]; [now left|]. right.
+      rewrite lookup_drop_other in H2 by assumption. destruct (A6 x xb H1 H2) as [B1 B2]. split; [assumption | intros _; now apply B2].
+    + destruct A7 as [extra [-> Hextra]]. exists ([o] ++ extra). rewrite app_assoc. split; [reflexivity|].
+      intros x [<-|Hx]; [apply lookup_drop_same|]. destruct (subq_drop q2 o x) as [E|E]; [rewrite E; now apply Hextra | assumption].
+    + intros x Hx Hn. rewrite Hrows3. rewrite (A8 x Hx Hn). apply orb_true_r.
+    + intros x Hc Hn. rewrite Hrows3. destruct (Nat.eqb o x) eqn:E; [reflexivity|]. apply Nat.eqb_neq in E. cbn [orb].
+      apply A9; [assumption|]. rewrite lookup_drop_other in Hn; [assumption | congruence].
+    + pose proof (length_drop q2 o ob A4). lia.
+  - (* modified: principals first, then UPDATE *)
+    destruct (HM eq_refl) as [-> Hrk]. cbn [mem existsb].
+    destruct (principals_ok f IHf o ob ltac:(congruence) (targets ob) q out ([] ++ [o]) d Hex HI HR Hl (incl_refl _))
+      as [q2 [out2 [deps2 [d2 [Hp [A1 [A2 [A3 [A4 [A5 [A6 [A7 [A8 [A9 A10]]]]]]]]]]]]]].
+    { intros t Ht Hc. specialize (Hrk t Ht Hc). split; [lia | congruence]. }
+    { intros x [<-|[]]. right; now left. }
+    rewrite Hp.
+    destruct (step_update d2 q2 o ob A2 A4 Est A5) as [d3 [Hex3 [HI3 Hrows3]]].
+    exists (drop q2 o), (out2 ++ [SUpdate o (o_cols ob)]), deps2, d3. split; [reflexivity|].
+    constructor.
+    + eapply exec_all_snoc; eassumption.
+    + assumption.
+    + eapply subq_trans; [apply subq_drop | assumption].
+    + apply lookup_drop_same.
+    + intros x xb H1 H2. destruct (Nat.eq_dec x o) as [->|Hn]; [now left|]. right.
+      rewrite lookup_drop_other in H2 by assumption. destruct (A6 x xb H1 H2) as [B1 B2]. split; [assumption | congruence].
+    + destruct A7 as [extra [-> Hextra]]. exists ([o] ++ extra). split; [reflexivity|].
+      intros x [<-|Hx]; [apply lookup_drop_same|]. destruct (subq_drop q2 o x) as [E|E]; [rewrite E; now apply Hextra | assumption].
+    + intros x Hx Hn. rewrite Hrows3. now apply A8.
+    + intros x Hc Hn. rewrite Hrows3. assert (x <> o) by (intro E; subst x; unfold is_created in Hc; rewrite Hl, Est in Hc; discriminate).
+      apply A9; [assumption|]. rewrite lookup_drop_other in Hn; assumption.
+    + pose proof (length_drop q2 o ob A4). lia.
+  - (* deleted: it is the head of the queue *)
+    destruct (HD eq_refl) as [q0 ->]. subst o.
+    destruct (step_delete d ob q0 HI Est) as [d3 [Hex3 [HI3 Hrows3]]].
+    exists (drop (ob :: q0) (o_id ob)), (out ++ [SDelete (o_id ob)]), deps, d3. split; [reflexivity|].
+    constructor.
+    + eapply exec_all_snoc; eassumption.
+    + assumption.
+    + apply subq_drop.
+    + apply lookup_drop_same.
+    + intros x xb H1 H2. destruct (Nat.eq_dec x (o_id ob)) as [->|Hn]; [now left|].
+      rewrite lookup_drop_other in H2 by assumption. congruence.
+    + exists []. rewrite app_nil_r. split; [reflexivity | intros x []].
+    + intros x Hx Hn. rewrite Hrows3, Hx. destruct (Nat.eqb x (o_id ob)) eqn:E; [|reflexivity].
+      apply Nat.eqb_eq in E. subst x. exfalso. apply Hn. unfold pending_st. rewrite Hl. cbn. now rewrite Est.
+    + intros x Hc Hn. exfalso. destruct (Nat.eq_dec x (o_id ob)) as [->|Hne].
+      * unfold is_created in Hc. rewrite Hl, Est in Hc. discriminate.
+      * rewrite lookup_drop_other in Hn by assumption. unfold is_created in Hc. now rewrite Hn in Hc.
+    + exact (length_drop _ _ _ Hl).
+Qed.
+
+(* the loop over objects_to_save *)
+Lemma save_all_ok : forall n fuel q out d,
+  length q <= n -> exec_all d0 out = Some d -> Inv d q -> ranked_l q ->
+  (forall x xb, lookup q x = Some xb -> o_st xb = Created -> S (rank x) < fuel) -> 0 < fuel ->
+  exists out' d', save_all n fuel q out = ROk [] out' [] /\ exec_all d0 out' = Some d' /\
+    (forall x, has_row d x = true -> not_deleted q x -> has_row d' x = true) /\
+    (forall x, is_created q x = true -> has_row d' x = true).
+Proof.
+  induction n as [|n IH]; intros fuel q out d Hlen Hex HI HR Hrk Hf.
+  - destruct q; [|cbn in Hlen; lia]. exists out, d. cbn. repeat split; auto. intros x Hc. discriminate.
+  - destruct q as [|ob q0].
+    + exists out, d. cbn. repeat split; auto. intros x Hc. discriminate.
+    + cbn [save_all].
+      assert (Hl : lookup (ob :: q0) (o_id ob) = Some ob) by (apply nodup_lookup_head, HI).
+      destruct (save_ok fuel (o_id ob) (ob :: q0) out [] d ob Hf Hex HI HR Hl) as [q' [out' [deps' [d' [Hsv P]]]]].
+      { intros Est. split; [specialize (Hrk _ _ Hl Est); lia | intros x []]. }
+      { intros Est. split; [reflexivity|]. intros t Ht Hc. unfold is_created in Hc.
+        destruct (lookup (ob :: q0) t) as [tb|] eqn:Et; [|discriminate]. destruct (o_st tb) eqn:Es; try discriminate.
+        exact (Hrk t tb Et Es). }
+      { intros _. now exists q0. }
+      rewrite Hsv. destruct P.
+      destruct (IH fuel q' out' d') as [out2 [d2 [Hs2 [Hex2 [R1 R2]]]]]; try assumption.
+      { cbn [length] in *. lia. }
+      { now apply (ranked_l_sub _ _ po_sub0). }
+      { intros x xb Hx Hs. destruct (po_sub0 x) as [E|E]; [|congruence]. rewrite E in Hx. eapply Hrk; eassumption. }
+      exists out2, d2. split; [exact Hs2|]. split; [exact Hex2|]. split.
+      * intros x Hx Hn. apply R1; [now apply po_rows3 | eapply subq_not_deleted; eassumption].
+      * intros x Hc. destruct (po_sub0 x) as [E|E].
+        -- apply R2. unfold is_created in *. now rewrite E.
+        -- apply R1; [now apply po_rows4|]. unfold not_deleted, pending_st. rewrite E. discriminate.
+Qed.
+
+End Order.
+
+(* ------------------------------------------------------------------------------------------------ link rows *)
+Lemma exec_linkdel_rows : forall ls d, exists d', exec_all d (map (fun l => SLinkDel (fst l) (snd l)) ls) = Some d' /\ rows d' = rows d.
+Proof.
+  induction ls as [|l ls IH]; intros d; cbn; [now exists d|].
+  destruct (IH (mkdb (rows d) (filter (fun l0 => negb (Nat.eqb (fst l0) (fst l) && Nat.eqb (snd l0) (snd l))) (lnk d)))) as [d' [H1 H2]].
+  exists d'. split; assumption.
+Qed.
+
+Lemma has_row_rows : forall d d', rows d' = rows d -> forall x, has_row d' x = has_row d x.
+Proof. intros d d' H x. unfold has_row. now rewrite H. Qed.
+
+Lemma Inv_rows : forall d d' q, rows d' = rows d -> Inv d q -> Inv d' q.
+Proof.
+  intros d d' q Hr [N I]. split; [assumption|]. intros ob Hin. specialize (I ob Hin). unfold P_obj in *.
+  destruct (o_st ob).
+  - destruct I as [A B]. split; [now rewrite (has_row_rows _ _ Hr)|]. intros t Ht. destruct (B t Ht) as [[C1 C2] C3].
+    split; [split|]; try assumption. now rewrite (has_row_rows _ _ Hr).
+  - destruct I as [A B]. split; [now rewrite (has_row_rows _ _ Hr)|]. intros t Ht. destruct (B t Ht) as [C1 C2].
+    split; try assumption. now rewrite (has_row_rows _ _ Hr).
+  - destruct I as [A B]. split; [now rewrite (has_row_rows _ _ Hr) | now rewrite Hr].
+Qed.
+
+Lemma exec_linkins : forall ls d, (forall l, In l ls -> has_row d (fst l) = true /\ has_row d (snd l) = true) ->
+  exists d', exec_all d (map (fun l => SLinkIns (fst l) (snd l)) ls) = Some d'.
+Proof.
+  induction ls as [|l ls IH]; intros d H; cbn; [now exists d|].
+  destruct (H l (or_introl eq_refl)) as [H1 H2]. rewrite H1, H2. cbn.
+  apply IH. intros l0 Hl0. destruct (H l0 (or_intror Hl0)) as [A B]. split; assumption.
+Qed.
+
+(* ------------------------------------------------------------------------------------------------ from the boolean well-formedness to the invariant *)
+Lemma wf_obj_P : forall d q ob, wf_obj d q ob = true -> P_obj d q ob.
+Proof.
+  intros d q ob H. unfold wf_obj in H. unfold P_obj. destruct (o_st ob).
+  - apply andb_true_iff in H as [H1 H2]. apply negb_true_iff in H1. split; [assumption|].
+    rewrite forallb_forall in H2. intros t Ht. specialize (H2 t Ht).
+    apply andb_true_iff in H2 as [H2 H3]. apply andb_true_iff in H2 as [H2 H4].
+    apply orb_true_iff in H2. apply negb_true_iff, Nat.eqb_neq in H4. apply negb_true_iff in H3.
+    split; [split; [assumption|] | assumption].
+    unfold not_deleted. intro E. rewrite E in H3. discriminate.
+  - apply andb_true_iff in H as [H1 H2]. split; [assumption|].
+    rewrite forallb_forall in H2. intros t Ht. specialize (H2 t Ht).
+    apply andb_true_iff in H2 as [H2 H3]. apply orb_true_iff in H2. apply negb_true_iff in H3.
+    split; [assumption|]. unfold not_deleted. intro E. rewrite E in H3. discriminate.
+  - apply andb_true_iff in H as [H1 H2]. split; [assumption|].
+    rewrite forallb_forall in H2. intros r Hr. specialize (H2 r Hr).
+    apply orb_true_iff in H2 as [H2|H2].
+    + apply negb_true_iff, andb_false_iff in H2 as [H2|H2]; [left | right; now left].
+      apply negb_false_iff, Nat.eqb_eq in H2. assumption.
+    + right; right. apply andb_true_iff in H2 as [H2 H3]. split; [assumption|].
+      match type of H3 with context [match ?X with Some _ => _ | None => _ end] => destruct X as [rb|] eqn:El end; [|discriminate].
+      exists rb. split; [exact El|].
+      destruct (o_st rb); [discriminate | right; auto | now left].
+Qed.
+
+Lemma ranked_to_l : forall q rank, nodup_ids q = true -> ranked q rank -> ranked_l rank q.
+Proof.
+  intros q rank N R o ob t Hl Hst Ht Hc. destruct (lookup_in _ _ _ Hl) as [Hin <-]. eapply R; eassumption.
+Qed.
+
+(* C16_order *)
+Theorem flush_order : forall d p rank,
+  wf_pending d p = true -> ranked (p_queue p) rank ->
+  (forall ob, In ob (p_queue p) -> o_st ob = Created -> S (rank (o_id ob)) <= length (p_queue p)) ->
+  exists ss d', flush p = FOk ss /\ exec_all d ss = Some d' /\ commit d p = (d', true).
+Proof.
+  intros d p rank Hwf HR Hb. unfold wf_pending in Hwf.
+  apply andb_true_iff in Hwf as [Hwf _]. apply andb_true_iff in Hwf as [Hwf Hlinks]. apply andb_true_iff in Hwf as [N Hobjs].
+  rewrite forallb_forall in Hobjs.
+  assert (HI : Inv d (p_queue p)) by (split; [assumption | intros ob Hin; apply wf_obj_P; now apply Hobjs]).
+  destruct (exec_linkdel_rows (p_removed p) d) as [dA [HexA HrA]].
+  assert (HIA : Inv dA (p_queue p)) by (eapply Inv_rows; eassumption).
+  set (n := length (p_queue p)).
+  destruct (save_all_ok rank d n (S n) (p_queue p) (map (fun l => SLinkDel (fst l) (snd l)) (p_removed p)) dA (le_n _) HexA HIA
+              (ranked_to_l _ _ N HR)) as [out' [d' [Hs [Hex' [R1 R2]]]]].
+  { intros x xb Hx Hs. destruct (lookup_in _ _ _ Hx) as [Hin <-]. specialize (Hb xb Hin Hs). unfold n. lia. }
+  { lia. }
+  destruct (exec_linkins (p_added p) d') as [d'' Hex''].
+  { unfold wf_links in Hlinks. rewrite forallb_forall in Hlinks. intros l Hl. specialize (Hlinks l Hl).
+    apply andb_true_iff in Hlinks as [Hlinks Hd2]. apply andb_true_iff in Hlinks as [Hlinks Hd1]. apply andb_true_iff in Hlinks as [Hx Hy].
+    apply negb_true_iff in Hd1, Hd2.
+    assert (Hend : forall z, has_row d z || is_created (p_queue p) z = true ->
+                             (match pending_st (p_queue p) z with Some Deleted => true | _ => false end) = false -> has_row d' z = true).
+    { intros z Hz Hnd. apply orb_true_iff in Hz as [Hz|Hz]; [|now apply R2].
+      apply R1; [now rewrite (has_row_rows _ _ HrA)|]. unfold not_deleted. intro E. rewrite E in Hnd. discriminate. }
+    split; [now apply Hend | now apply Hend]. }
+  assert (Hflush : flush p = FOk (out' ++ map (fun l => SLinkIns (fst l) (snd l)) (p_added p))).
+  { unfold flush. fold n. now rewrite Hs. }
+  exists (out' ++ map (fun l => SLinkIns (fst l) (snd l)) (p_added p)), d''.
+  assert (Hall : exec_all d (out' ++ map (fun l => SLinkIns (fst l) (snd l)) (p_added p)) = Some d'') by (rewrite exec_all_app, Hex'; exact Hex'').
+  split; [exact Hflush|]. split; [exact Hall|].
+  unfold commit. now rewrite Hflush, Hall.
+Qed.
+
+(* ------------------------------------------------------------------------------------------------ cycles *)
+(* a cycle: every member is a pending 'created' object and references the next one *)
+Definition on_cycle (q : list obj) (cyc : list oid) : Prop :=
+  cyc <> [] /\ forall c, In c cyc -> exists cb nxt, lookup q c = Some cb /\ o_st cb = Created /\ In nxt cyc /\ In nxt (targets cb).
+
+Lemma principals_keeps_cycle : forall sv cyc,
+  (forall o q out deps q' out' deps', on_cycle q cyc -> sv o q out deps = ROk q' out' deps' ->
+       on_cycle q' cyc /\ forall c, In c cyc -> lookup q' c = lookup q c) ->
+  forall ts q out deps q' out' deps', on_cycle q cyc -> principals sv ts q out deps = ROk q' out' deps' ->
+       on_cycle q' cyc /\ forall c, In c cyc -> lookup q' c = lookup q c.
+Proof.
+  intros sv cyc Hsv ts. induction ts as [|t ts IH]; intros q out deps q' out' deps' Hc Hp; cbn in Hp.
+  - injection Hp as <- <- <-. split; [assumption | reflexivity].
+  - destruct (is_created q t).
+    + destruct (sv t q out deps) as [q1 out1 deps1| |] eqn:E; try discriminate.
+      destruct (Hsv _ _ _ _ _ _ _ Hc E) as [Hc1 Hk1]. destruct (IH _ _ _ _ _ _ Hc1 Hp) as [Hc2 Hk2].
+      split; [assumption|]. intros c Hin. rewrite Hk2, Hk1; auto.
+    + eapply IH; eassumption.
+Qed.
+
+Lemma save_ok_gone : forall f o q out deps q' out' deps' ob, lookup q o = Some ob -> save f o q out deps = ROk q' out' deps' -> lookup q' o = None.
+Proof.
+  intros f o q out deps q' out' deps' ob Hl Hs. destruct f as [|f]; [discriminate|]. cbn [save] in Hs. rewrite Hl in Hs.
+  destruct (o_st ob).
+  - destruct (mem o deps); [discriminate|].
+    destruct (principals (save f) (targets ob) q out (deps ++ [o])) as [q3 out3 deps3| |]; try discriminate.
+    injection Hs as <- _ _. apply lookup_drop_same.
+  - destruct (mem o deps); [discriminate|].
+    destruct (principals (save f) (targets ob) q out (deps ++ [o])) as [q3 out3 deps3| |]; try discriminate.
+    injection Hs as <- _ _. apply lookup_drop_same.
+  - injection Hs as <- _ _. apply lookup_drop_same.
+Qed.
+
+(* the loop over the references of a cycle member cannot complete: it would have to save the next member *)
+Lemma principals_blocks : forall f cyc,
+  (forall o q out deps q' out' deps', on_cycle q cyc -> save f o q out deps = ROk q' out' deps' ->
+       on_cycle q' cyc /\ forall c, In c cyc -> lookup q' c = lookup q c) ->
+  forall ts q out dd q1 out1 deps1 nxt, on_cycle q cyc -> In nxt cyc -> In nxt ts ->
+    principals (save f) ts q out dd = ROk q1 out1 deps1 -> False.
+Proof.
+  intros f cyc IHf ts. induction ts as [|t ts IHts]; intros q out dd q1 out1 deps1 nxt Hc Cn Dn Ep; [contradiction|].
+  cbn [principals] in Ep. destruct Dn as [->|Dn].
+  - destruct (proj2 Hc nxt Cn) as [nb [nn [A1 [A2 _]]]]. unfold is_created in Ep. rewrite A1, A2 in Ep.
+    destruct (save f nxt q out dd) as [q2 out2 deps2| |] eqn:Es; try discriminate.
+    destruct (IHf _ _ _ _ _ _ _ Hc Es) as [_ Hk]. specialize (Hk nxt Cn).
+    rewrite (save_ok_gone _ _ _ _ _ _ _ _ _ A1 Es) in Hk. congruence.
+  - destruct (is_created q t).
+    + destruct (save f t q out dd) as [q2 out2 deps2| |] eqn:Es; try discriminate.
+      destruct (IHf _ _ _ _ _ _ _ Hc Es) as [Hc2 _]. eapply IHts; eassumption.
+    + eapply IHts; eassumption.
+Qed.
+
+(* no member of a cycle is ever saved: saving it would first have to save its successor, ... *)
+Lemma save_keeps_cycle : forall f cyc o q out deps q' out' deps',
+  on_cycle q cyc -> save f o q out deps = ROk q' out' deps' ->
+  on_cycle q' cyc /\ forall c, In c cyc -> lookup q' c = lookup q c.
+Proof.
+  induction f as [|f IHf]; intros cyc o q out deps q' out' deps' Hc Hs; cbn [save] in Hs; [discriminate|].
+  destruct (lookup q o) as [ob|] eqn:El.
+  2:{ injection Hs as <- <- <-. split; [assumption | reflexivity]. }
+  assert (Hkeep : forall q1, (forall c, In c cyc -> lookup q1 c = lookup q c) -> ~ In o cyc ->
+                  on_cycle (drop q1 o) cyc /\ forall c, In c cyc -> lookup (drop q1 o) c = lookup q c).
+  { intros q1 Hk Hno. assert (Hk' : forall c, In c cyc -> lookup (drop q1 o) c = lookup q c).
+    { intros c Hin. rewrite lookup_drop_other; [now apply Hk | intro E; subst c; contradiction]. }
+    split; [|exact Hk']. destruct Hc as [Hne Hc]. split; [assumption|]. intros c Hin.
+    destruct (Hc c Hin) as [cb [nxt [A [B [C D]]]]]. exists cb, nxt. rewrite Hk' by assumption. auto. }
+  destruct (o_st ob) eqn:Est.
+  - (* created *)
+    destruct (mem o deps); [discriminate|].
+    destruct (principals (save f) (targets ob) q out (deps ++ [o])) as [q1 out1 deps1| |] eqn:Ep; try discriminate.
+    injection Hs as <- <- <-.
+    destruct (principals_keeps_cycle (save f) cyc (fun o0 q0 out0 deps0 q2 out2 deps2 => IHf cyc o0 q0 out0 deps0 q2 out2 deps2)
+                _ _ _ _ _ _ _ Hc Ep) as [Hc1 Hk1].
+    destruct (in_dec Nat.eq_dec o cyc) as [Hin|Hno]; [|now apply Hkeep].
+    (* o is on the cycle: its successor is still 'created' when the loop reaches it, and cannot have been saved *)
+    exfalso. destruct (proj2 Hc o Hin) as [cb [nxt [A [B [C D]]]]]. rewrite El in A. injection A as <-.
+    exact (principals_blocks f cyc (fun o0 q0 out0 deps0 q2 out2 deps2 => IHf cyc o0 q0 out0 deps0 q2 out2 deps2)
+             (targets ob) _ _ _ _ _ _ nxt Hc C D Ep).
+  - (* modified: never on a cycle of created objects *)
+    destruct (mem o deps); [discriminate|].
+    destruct (principals (save f) (targets ob) q out (deps ++ [o])) as [q1 out1 deps1| |] eqn:Ep; try discriminate.
+    injection Hs as <- <- <-.
+    destruct (principals_keeps_cycle (save f) cyc (fun o0 q0 out0 deps0 q2 out2 deps2 => IHf cyc o0 q0 out0 deps0 q2 out2 deps2)
+                _ _ _ _ _ _ _ Hc Ep) as [Hc1 Hk1].
+    assert (Hno : ~ In o cyc).
+    { intro Hin. destruct Hc as [_ Hc]. destruct (Hc o Hin) as [cb [nxt [A [B _]]]]. rewrite El in A. injection A as <-. congruence. }
+    destruct (Hkeep q1 Hk1 Hno) as [K1 K2]. split; [exact K1 | exact K2].
+  - injection Hs as <- <- <-.
+    assert (Hno : ~ In o cyc).
+    { intro Hin. destruct Hc as [_ Hc]. destruct (Hc o Hin) as [cb [nxt [A [B _]]]]. rewrite El in A. injection A as <-. congruence. }
+    apply Hkeep; [reflexivity | assumption].
+Qed.
+
+Lemma save_all_cycle : forall n fuel cyc q out q' out' deps', on_cycle q cyc -> save_all n fuel q out <> ROk q' out' deps'.
+Proof.
+  induction n as [|n IH]; intros fuel cyc q out q' out' deps' Hc Hs; cbn [save_all] in Hs.
+  - destruct q; [|discriminate]. destruct Hc as [Hne Hc]. destruct cyc as [|c cyc]; [congruence|].
+    destruct (Hc c (or_introl eq_refl)) as [cb [_ [A _]]]. discriminate.
+  - destruct q as [|ob q0].
+    + destruct Hc as [Hne Hc]. destruct cyc as [|c cyc]; [congruence|].
+      destruct (Hc c (or_introl eq_refl)) as [cb [_ [A _]]]. discriminate.
+    + destruct (save fuel (o_id ob) (ob :: q0) out []) as [q1 out1 deps1| |] eqn:E; try discriminate.
+      destruct (save_keeps_cycle _ _ _ _ _ _ _ _ _ Hc E) as [Hc1 _]. exact (IH _ _ _ _ _ _ _ Hc1 Hs).
+Qed.
+
+(* C16_cycle: with a reference cycle between new objects flush does not succeed, and commit leaves the database as it was *)
+Theorem flush_cycle : forall d p cyc, on_cycle (p_queue p) cyc ->
+  (forall ss, flush p <> FOk ss) /\ commit d p = (d, false).
+Proof.
+  intros d p cyc Hc.
+  assert (H : forall ss, flush p <> FOk ss).
+  { intros ss Hf. unfold flush in Hf.
+    destruct (save_all (length (p_queue p)) (S (length (p_queue p))) (p_queue p) (map (fun l => SLinkDel (fst l) (snd l)) (p_removed p)))
+      as [q1 out1 deps1| |] eqn:E; try discriminate.
+    exact (save_all_cycle _ _ _ _ _ _ _ _ Hc E). }
+  split; [exact H|]. unfold commit. destruct (flush p) as [ss| |] eqn:E; try reflexivity. exfalso. exact (H ss eq_refl).
 Qed.
